@@ -184,12 +184,16 @@ pub fn inline_scenarios(tier: Tier) -> Vec<InlineScenario> {
 }
 
 fn check_all_tapes(scen: &Scenario, obs: &mut Obs, tapes: &Cell<u64>) -> Result<BTreeSet<Outcome>, Fail> {
-    let runs = guarded("hook", || enumerate_real(scen, TAPE_CAP))?
-        .map_err(|e| Fail::new("harness:tape-cap", e))?;
-    tapes.set(tapes.get() + runs.len() as u64);
+    // depth-first over every tape; each run is checked as soon as it is made, so that a broken
+    // hook is reported at the first offending tape instead of after enumerating a blown-up space
     let mut reached = BTreeSet::new();
     let mut split = false;
-    for r in &runs {
+    let mut tape = vec![];
+    let mut n = 0usize;
+    loop {
+        let r = guarded("hook", || run_real(scen, tape, false))?;
+        n += 1;
+        tapes.set(tapes.get() + 1);
         if !r.driver_errors.is_empty() {
             return Err(Fail::new(
                 format!("{}:driver-request-invalid", scen.hooks[0].name()),
@@ -199,6 +203,13 @@ fn check_all_tapes(scen: &Scenario, obs: &mut Obs, tapes: &Cell<u64>) -> Result<
         let (out, stats) = check_run(scen, &r.events, r.spin)?;
         split |= stats.split;
         reached.insert(out);
+        if n > TAPE_CAP {
+            return Err(Fail::new("harness:tape-cap", format!("more than {TAPE_CAP} tapes")));
+        }
+        match crate::tape::next_tape(&r.rec) {
+            Some(t) => tape = t,
+            None => break,
+        }
     }
     obs.nontrivial(split);
     Ok(reached)
